@@ -3,6 +3,8 @@
 run the real functions natively over a stated value / expression grammar and compare with the spec
 function.  Never counted as proved."""
 import copy
+
+import z3
 import itertools
 import json
 
@@ -314,4 +316,81 @@ class OrderIndependence(Unit):
         def thunk(e):
             ctx.oblige(name, ok, None, info)
             ctx.canary()
+        ctx.eng.explore(thunk)
+
+
+# ================================================================================================
+# normal forms of the transition shorthand: proof over arbitrary (opaque) publish / do values
+# ================================================================================================
+class TransitionNormalForm(Unit):
+    name = "X.transition_normal_form"
+    functions = ["orquesta.specs.native.v1.models.TaskTransitionSpec.__init__", "orquesta.specs.base.Spec.__getattr__"]
+    obligations = {
+        "C20.do.default": {"props": ["C20"], "text":
+            "for every transition: a missing or empty `do` denotes `continue`; any other `do` value is left exactly as written; `when` is never touched"},
+        "C20.publish.normal_form": {"props": ["C20"], "text":
+            "for every transition: a publish given as a string is replaced by exactly parse_inline_params of that string; a publish given as a list is left exactly as written"},
+    }
+    assumptions = [
+        "Spec.__init__ (schema bookkeeping) is abstracted: it stores the definition dict as self.spec and the class schemas; Spec.__getattr__ is interpreted from source",
+        "parse_inline_params is used through its bounded contract (C20.params.roundtrip); values of when/do/publish are opaque with arbitrary truthiness",
+    ]
+    trusted = ["z3 5.1", "pyvc interpreter"]
+
+    def splits(self, tier):
+        return [(p, d) for p in ("absent", "string", "empty_string", "list") for d in ("absent", "value")]
+
+    def run_split(self, ctx, split):
+        pk, dk = split
+        from orquesta.specs import base as spec_base
+        from pyvc import sym as S
+
+        def thunk(e):
+            spec = {"when": "W"}
+            parsed = []
+            listval = [{"x": 1}]
+            if pk == "string":
+                spec["publish"] = "a=1 b=2"
+            elif pk == "empty_string":
+                spec["publish"] = ""
+            elif pk == "list":
+                spec["publish"] = listval
+            do_truthy = None
+            doval = S.mk_val("do_value")
+            if dk == "value":
+                spec["do"] = doval
+                do_truthy = e.register_input("do_truthy", S.SBool(S.truthy_val(doval.z)))
+
+            def spec_init(eng, self_, sp, name=None, member=False):
+                object.__setattr__(self_, "spec", sp)
+                object.__setattr__(self_, "_schema", models.TaskTransitionSpec._schema)
+                object.__setattr__(self_, "_meta_schema", {"type": "object", "properties": {}})
+
+            def pip(eng, s, preserve_order=True):
+                parsed.append(s)
+                return ["PARSED", s]
+
+            e.overrides[spec_base.Spec.__init__] = spec_init
+            e.overrides[args_util.parse_inline_params] = pip
+            obj = object.__new__(models.TaskTransitionSpec)
+            e.call(models.TaskTransitionSpec.__init__, [obj, spec], {})
+            d = obj.__dict__
+            info = {"publish": pk, "do": dk}
+            # do
+            if dk == "absent":
+                ctx.oblige("C20.do.default", d.get("do") == "continue" and obj.spec.get("when") == "W", None, info)
+            else:
+                set_do = "do" in d
+                ctx.oblige("C20.do.default", z3.And(
+                    z3.Implies(do_truthy.z, z3.BoolVal(not set_do and obj.spec["do"] is doval)),
+                    z3.Implies(z3.Not(do_truthy.z), z3.BoolVal(set_do and d.get("do") == "continue"))), None, info)
+            # publish
+            if pk == "string":
+                ctx.oblige("C20.publish.normal_form", parsed == ["a=1 b=2"] and d.get("publish") == ["PARSED", "a=1 b=2"], None, info)
+            elif pk == "list":
+                ctx.oblige("C20.publish.normal_form", not parsed and "publish" not in d and obj.spec["publish"] is listval, None, info)
+            else:
+                ctx.oblige("C20.publish.normal_form", not parsed and "publish" not in d, None, info)
+            ctx.canary()
+
         ctx.eng.explore(thunk)
